@@ -78,7 +78,8 @@ Definition lookup_table_set (n : nat) (ext : nat) (b klut kmsg : Z) (f : list Z)
 
 (* ---- mod_switch_2n (algorithms/mod.rs) ----
    n2 = the `n` argument (2 * N * ext), b = lwe.base2k, left = (rot_dir == Left),
-   ls = the limbs of the LWE ciphertext (each of length n_lwe + 1).  None = `at(0, i)` beyond lwe.size(). *)
+   ls = the limbs of the LWE ciphertext (each of length n_lwe + 1).  None = `at(0, 0)` of a ciphertext without limbs.
+   (as repaired by /repo e75ed0e) *)
 Definition bitlen (m : Z) : Z := if m <=? 0 then 0 else Z.log2 m + 1.
 Definition ms_log2n (n2 : Z) : Z := bitlen (n2 - 1) + 1.
 Definition div_round_by_pow2 (x k : Z) : Z := asr (wadd 64 x (shl 64 1 (k - 1))) k.
@@ -92,17 +93,16 @@ Definition mod_switch_2n (n2 b : Z) (left : bool) (ls : list (list Z)) : option 
     let diff := b - (log2n - 1) in
     Some (map (fun x => div_round_by_pow2 x diff) res1)
   else
-    let rem := b - log2n mod b in
-    let size := div_ceil log2n b in
-    if Z.of_nat (length ls) <? size then None else
-    Some (fold_left (fun (res : list Z) (i : nat) =>
-            let li := nth i ls [] in
-            if (Z.of_nat i =? size - 1) && negb (rem =? b) then
-              let k_rem := b - rem in
-              map2 (fun x y => wadd 64 (shl 64 y k_rem) (asr x rem)) li res
-            else
-              map2 (fun x y => wadd 64 (shl 64 y b) x) li res)
-          (seq 1 (Z.to_nat size - 1)) res1).
+    (* keep bits = log2n - 1 = log2(n2) bits, as the first branch does: accumulate the limbs that hold them plus at
+       least one rounding bit (no more than the ciphertext has), the direction sign on every limb, round once *)
+    let bits := log2n - 1 in
+    let size := Z.min (div_ceil (bits + 1) b) (Z.of_nat (length ls)) in
+    let acc := fold_left (fun (res : list Z) (i : nat) =>
+                 map2 (fun x y => wadd 64 (shl 64 y b) (if left then wneg 64 x else x)) (nth i ls []) res)
+               (seq 1 (Z.to_nat size - 1)) res1 in
+    let tot := size * b in
+    Some (if bits <? tot then map (fun x => div_round_by_pow2 x (tot - bits)) acc
+          else map (fun x => shl 64 x (bits - tot)) acc).
 
 (* ---- set_xai_plus_y (utils.rs) ----
    returns (the polynomial handed to svp_prepare, the buffer as it is left) *)
